@@ -99,26 +99,26 @@ def oWindowWithCount (count : Nat) (src : Obsv) : Obsv := fun s =>
     (fun serial => .cellRead sbj false fun cur => (Subj.dec cur).complete ;; sc.sinkComplete serial)
     fun o => src.sub o
 
-/-- group_by (src/operators/group_by.rs): key ↦ Subject; a new group is announced downstream while the
-    map's write lock is held; terminals go to every group (map read lock held), then downstream -/
+/-- group_by (src/operators/group_by.rs): key ↦ Subject; the group is looked up / created under the map's
+    lock, announced downstream and fed after the lock is released; terminals go to a snapshot of the groups -/
 def oGroupBy (key : Fn) (src : Obsv) : Obsv := fun s =>
   .cellNew .lnil fun mp =>
   sctlNew s fun sc =>
   sc.newObserver
     (fun _ x =>
       let k := (key.app x).toInt
-      .lockAcq (.cell mp) true <| .cellRead mp true fun m =>
+      .cellRead mp false fun m =>
         match amapGet m k with
-        | some sjd => .lockRel (.cell mp) ((Subj.dec sjd).next x)
+        | some sjd => (Subj.dec sjd).next x
         | none =>
           subjNew fun sj =>
-            .cellWrite mp true (amapInsert m k sj.enc) <|
+            .cellWrite mp false (amapInsert m k sj.enc) <|
             .obsvNew sj.observable fun id =>
-            sc.sinkNext (.obs id) ;; (.lockRel (.cell mp) (sj.next x)))
-    (fun _ e => .lockAcq (.cell mp) false <| .cellRead mp true fun m =>
-        forEach (amapVals m) (fun sjd => (Subj.dec sjd).error e) ;; (.lockRel (.cell mp) (sc.sinkError e)))
-    (fun serial => .lockAcq (.cell mp) false <| .cellRead mp true fun m =>
-        forEach (amapVals m) (fun sjd => (Subj.dec sjd).complete) ;; (.lockRel (.cell mp) (sc.sinkComplete serial)))
+            sc.sinkNext (.obs id) ;; sj.next x)
+    (fun _ e => .cellRead mp false fun m =>
+        forEach (amapVals m) (fun sjd => (Subj.dec sjd).error e) ;; sc.sinkError e)
+    (fun serial => .cellRead mp false fun m =>
+        forEach (amapVals m) (fun sjd => (Subj.dec sjd).complete) ;; sc.sinkComplete serial)
     fun o => src.sub o
 
 /-! ### publish -/
